@@ -13,6 +13,7 @@ package main
 import (
 	"encoding/json"
 	"fmt"
+	"math"
 	"os"
 	"sort"
 	"strings"
@@ -76,7 +77,7 @@ func (c Case) tree() (t *chaingen.Tree) {
 
 type failure struct{ kind, detail string }
 
-var chunkSizes = []int{1, 2, 3, 7, 1000}
+var chunkSizes = []int{1, 2, 3, 7, 1000, 100, math.MaxInt}
 
 type world struct {
 	t     *chaingen.Tree
@@ -99,6 +100,13 @@ type world struct {
 	ops                []mgrsim.Op
 	f8At               int
 	f8                 bool
+	// a second wallet, for the other party's address, is fed the very same chunk objects after the
+	// first one (what one wallet does with an update must not show in the next one's view of it)
+	store2 *testutil.EphemeralWalletStore
+	w2     *wallet.SingleAddressWallet
+	second bool   // the monitors are being evaluated for the second wallet
+	who    string // prefix of failure details
+	checks int
 }
 
 func newWorld(t *chaingen.Tree) *world {
@@ -111,12 +119,17 @@ func newWorld(t *chaingen.Tree) *world {
 		panic("c06: wallet address differs from the generator's address")
 	}
 	w.w = sw
+	okey, _, _ := t.Env.Other()
+	w.store2 = testutil.NewEphemeralWalletStore()
+	if w.w2, err = wallet.NewSingleAddressWallet(okey, w.s.CM, w.store2, nil); err != nil {
+		panic(err)
+	}
 	w.f8At = -1
 	w.ab = newAbstraction(t, w.tw)
 	return w
 }
 
-func (w *world) close() { w.w.Close() }
+func (w *world) close() { w.w.Close(); w.w2.Close() }
 
 // differsByExpiryOrder lets the C02 judge decide, for the history so far, whether the node's
 // deviation from the linear replay is the known expiry-order finding.
@@ -141,7 +154,7 @@ func (w *world) differsByExpiryOrder() bool {
 
 func (w *world) report(kind, format string, a ...any) {
 	if w.fail == nil {
-		w.fail = &failure{kind, fmt.Sprintf(format, a...)}
+		w.fail = &failure{kind, w.who + fmt.Sprintf(format, a...)}
 	}
 }
 
@@ -183,7 +196,14 @@ func (w *world) poll(max int) {
 		if err := w.store.UpdateChainState(func(tx wallet.UpdateTx) error { return w.w.UpdateChainState(tx, rus, aus) }); err != nil {
 			w.report("c06-wallet-update-error", "UpdateChainState failed on the chunk from %v: %v", w.idx, err)
 		}
+		// the same objects, second wallet
+		w.who = "second wallet (the other party's address, fed the same update objects after the first wallet): "
+		if err := w.store2.UpdateChainState(func(tx wallet.UpdateTx) error { return w.w2.UpdateChainState(tx, rus, aus) }); err != nil {
+			w.report("c06-wallet-update-error", "UpdateChainState failed on the chunk from %v: %v", w.idx, err)
+		}
+		w.who = ""
 	}()
+	w.who = ""
 	if w.fail != nil {
 		return
 	}
@@ -215,7 +235,7 @@ func (w *world) poll(max int) {
 	}
 	w.idx = after
 	if w.idx == w.s.CM.Tip() {
-		w.check()
+		w.checkBoth()
 	}
 }
 
@@ -237,9 +257,27 @@ func (e evRow) key() string {
 	return fmt.Sprintf("%s %v in=%s out=%s at=%v mat=%d", e.typ, e.id, e.in.ExactString(), e.out.ExactString(), e.index, e.maturity)
 }
 
+// checkBoth evaluates the monitors for the wallet and then for the second wallet.
+func (w *world) checkBoth() {
+	w.check()
+	if w.fail != nil {
+		return
+	}
+	_, _, oaddr := w.t.Env.Other()
+	s1, w1, a1 := w.store, w.w, w.addr
+	w.store, w.w, w.addr, w.second = w.store2, w.w2, oaddr, true
+	w.who = "second wallet (the other party's address, fed the same update objects after the first wallet): "
+	w.check()
+	w.store, w.w, w.addr, w.second, w.who = s1, w1, a1, false, ""
+}
+
 // check evaluates the monitors; the wallet is at the manager's tip.
 func (w *world) check() {
-	w.stats["checks-at-tip"]++
+	if w.second {
+		w.stats["checks-at-tip-second-wallet"]++
+	} else {
+		w.stats["checks-at-tip"]++
+	}
 	tipN := w.t.ByID[w.idx.ID]
 	truth := w.tw.At(tipN)
 	_, utxos, err := w.store.UnspentSiacoinElements()
@@ -304,10 +342,49 @@ func (w *world) check() {
 		return
 	}
 	w.stats["utxos-compared"] += len(got)
+	for _, e := range got {
+		if e.SiacoinOutput.Value.IsZero() {
+			w.stats["zero-valued-outputs-compared"]++
+		}
+	}
 	// 2. events == the relevant events of the best chain's blocks
 	evs, err := w.w.Events(0, 1<<30)
 	if err != nil {
 		w.report("c06-store-error", "%v", err)
+		return
+	}
+	// the same list read through the paging API, page size 1, 3, 100 or 2^30 in turn
+	w.checks++
+	page := []int{1, 3, 100, 1 << 30}[w.checks%4]
+	if page < 7 && len(evs) > 60 {
+		page = 7 // (every page read sorts the whole list)
+	}
+	var paged []wallet.Event
+	for off := 0; off <= len(evs); off += page {
+		var p []wallet.Event
+		func() {
+			defer func() {
+				if r := recover(); r != nil {
+					w.report("c06-events-page-panics", "at tip %d Events(%d, %d) panicked with %d events stored: %v", tipN.Idx, off, page, len(evs), r)
+				}
+			}()
+			p, err = w.w.Events(off, page)
+		}()
+		if w.fail != nil {
+			return
+		}
+		if err != nil || len(p) == 0 {
+			break
+		}
+		paged = append(paged, p...)
+		w.stats["event-pages-read"]++
+	}
+	same := len(paged) == len(evs)
+	for i := 0; same && i < len(evs); i++ {
+		same = paged[i].ID == evs[i].ID && paged[i].Index == evs[i].Index && paged[i].Type == evs[i].Type
+	}
+	if !same {
+		w.report("c06-events-pages-differ-from-the-list", "at tip %d the %d events read in pages of %d are not the list Events(0, 2^30) returns (%d events)", tipN.Idx, len(paged), page, len(evs))
 		return
 	}
 	var have []evRow
@@ -402,6 +479,9 @@ func (w *world) check() {
 		return
 	}
 	// observation for the model: sorted (id, value, maturity) and the event list in display order
+	if w.second {
+		return
+	}
 	if !(w.force || (w.revertedSinceCheck && w.rendered < 3)) {
 		return
 	}
@@ -463,7 +543,7 @@ func runCase(cs Case, t *chaingen.Tree) *world {
 	}
 	if w.idx == w.s.CM.Tip() && (len(w.coq) == 0 || !strings.HasPrefix(w.coq[len(w.coq)-1], "SCheck")) {
 		w.force = true
-		w.check()
+		w.checkBoth()
 	}
 	return w
 }
@@ -653,12 +733,13 @@ func run(c *hx.Ctx) {
 	for _, d := range directed() {
 		doCase(d.cs, d.t)
 	}
-	n := c.Scale(300, 3000)
+	n := c.Scale(260, 3000)
 	for i := 0; i < n; i++ {
 		r := c.R.Fork()
 		cs, t := genCase(r, i%6)
 		doCase(cs, t)
 	}
+	res.Notes = append(res.Notes, "side finding outside the property's wording (not judged): EphemeralWalletStore.WalletEvents(offset >= 1, math.MaxInt) panics (offset+limit overflows); Go test corpus/C06/events_huge_limit_test.go, proposed patch fixes/C06-3.patch")
 	res.Notes = append(res.Notes, "the subscriber index is kept by the harness (the index the stream left it at); testutil.EphemeralWalletStore.Tip() records the reverted block's index after a chunk that ends on a revert (counter reference-store-tip-is-the-reverted-index): outside the property by its own wording, not judged")
 	res.WriteCases("Run.Run_C06", cases)
 }
